@@ -39,8 +39,25 @@ func newKeyGen(r *rand.Rand, n int) *keyGen {
 	g := &keyGen{r: r}
 	// a per-case pool: part alphabet, part random, so that repeats are frequent
 	perm := r.Perm(len(alphabet))
-	for i := 0; i < n && i < len(perm); i++ {
+	// about two thirds of a pool come from the alphabet, the rest is generated
+	na := n - n/3
+	for i := 0; i < na && i < len(perm); i++ {
 		g.pool = append(g.pool, alphabet[perm[i]])
+	}
+	if n >= 6 && r.Intn(5) == 0 {
+		// a family of sort-adjacent keys sharing a long prefix whose length sits at a varint
+		// boundary (the delta encoding of the compressed export stores that length as a uvarint)
+		pl := []int{126, 127, 128, 129, 130, 255, 256, 300}[r.Intn(8)]
+		if r.Intn(12) == 0 {
+			pl = []int{16383, 16384, 16385}[r.Intn(3)]
+		}
+		pre := make([]byte, pl)
+		r.Read(pre)
+		for i, m := 0, 2+r.Intn(3); i < m && len(g.pool) < n; i++ {
+			suf := make([]byte, 1+r.Intn(3))
+			r.Read(suf)
+			g.pool = append(g.pool, append(append([]byte{}, pre...), suf...))
+		}
 	}
 	for len(g.pool) < n {
 		switch r.Intn(10) {
@@ -445,6 +462,12 @@ func genM1(r *rand.Rand, p Profile, id string) Case {
 			}
 			if len(t.versions) > 0 {
 				ops = append(ops, []string{"fault", "getv", k, i64(t.versions[r.Intn(len(t.versions))])})
+				// the same on tree objects that have not loaded anything yet
+				for _, v := range []int64{t.first(), t.versions[r.Intn(len(t.versions))]} {
+					ops = append(ops, []string{"fault", "cold", "getv", k, i64(v)})
+					ops = append(ops, []string{"fault", "cold", "r", "v" + i64(v), "get", k})
+				}
+				ops = append(ops, []string{"fault", "cold", "r", "v" + i64(t.first()), "iterate"})
 			}
 			continue
 		case "faultsave":
@@ -673,6 +696,59 @@ func genM1(r *rand.Rand, p Profile, id string) Case {
 			continue
 		case "resave":
 			// reopen at / load an older version and commit again: identical or different content
+			if r.Intn(2) == 0 && t.cur == t.latest() && !t.dirty {
+				// commit A, writes W1, commit A+1, (writes W2, commit A+2), load A, replay W1, commit
+				// again (the same hash: accepted without writing), (replay W2, commit), then read
+				// the saved state, write and discard
+				a := t.latest() + 1
+				if t.latest() == 0 && iv > 0 {
+					a = iv
+				}
+				wr := func() [][]string {
+					var w [][]string
+					for i, m := 0, 1+r.Intn(3); i < m; i++ {
+						if r.Intn(4) == 0 {
+							w = append(w, []string{"rm", hx(g.key())})
+						} else {
+							w = append(w, []string{"set", hx(g.key()), hx(g.value())})
+						}
+					}
+					return w
+				}
+				w1, w2 := wr(), wr()
+				two := r.Intn(2) == 0
+				ops = append(ops, []string{"save"})
+				ops = append(ops, w1...)
+				ops = append(ops, []string{"save"})
+				t.versions = append(t.versions, a, a+1)
+				if two {
+					ops = append(ops, w2...)
+					ops = append(ops, []string{"save"})
+					t.versions = append(t.versions, a+2)
+				}
+				ops = append(ops, []string{"load", i64(a)})
+				ops = append(ops, w1...)
+				ops = append(ops, []string{"save"}, []string{"hash"}, []string{"wver"})
+				t.cur = a + 1
+				if two && r.Intn(2) == 0 {
+					ops = append(ops, w2...)
+					ops = append(ops, []string{"save"}, []string{"hash"}, []string{"wver"})
+					t.cur = a + 2
+				}
+				ops = append(ops, []string{"set", hx(g.key()), hx([]byte("discarded"))}, []string{"rollback"},
+					[]string{"wver"}, []string{"hash"})
+				obs(r, g, t, false, &ops)
+				if r.Intn(2) == 0 {
+					ops = append(ops, []string{"set", hx(g.key()), hx(g.value())}, []string{"save"})
+					if !t.has(t.cur + 1) {
+						t.versions = append(t.versions, t.cur+1)
+					}
+					t.cur++
+				}
+				t.dirty = false
+				muts++
+				continue
+			}
 			if len(t.versions) < 2 {
 				continue
 			}
